@@ -520,6 +520,12 @@ Definition metas_of_jval (v : jval) : option (list (bytes * bytes)) :=
 Fixpoint has_colon (s : bytes) : bool :=
   match s with [] => false | c :: r => (c =? 58) || has_colon r end.
 
+Fixpoint mod_id_by_name (l : list (N * modinfo)) (nm : bytes) : option N :=
+  match l with
+  | [] => None
+  | (i, mi) :: r => if beq_bytes (mi_name mi) nm then Some i else mod_id_by_name r nm
+  end.
+
 Section FromJson.
   Variable sch : schema.
   Variable t : doctabs.
@@ -529,11 +535,7 @@ Section FromJson.
   Definition resolve_member (p : option sid) (pm : option N) (k : bytes) : option sid :=
     if has_colon k then
       let '(mn, nm) := split_colon k in
-      match (fix find (l : list (N * modinfo)) : option N :=
-               match l with
-               | [] => None
-               | (i, mi) :: r => if beq_bytes (mi_name mi) mn then Some i else find r
-               end) (dt_mods t) with
+      match mod_id_by_name (dt_mods t) mn with
       | Some mid => sid_by_name sch (dt_names t) p mid nm
       | None => None
       end
@@ -651,3 +653,31 @@ Section FromJson.
     | None => None
     end.
 End FromJson.
+
+(* ------------------------------------------------------------------------------------------- *)
+(* boolean checkers of the data hypotheses of the theorems (examples, T2)                        *)
+(* ------------------------------------------------------------------------------------------- *)
+Definition jterm_okb (vb : bytes -> bool) (k : jkind) (v : bytes) : bool :=
+  match k with
+  | JStr => vb v
+  | JNum => jnumber_ok v && forallb is_numchar v && negb (isnil v)
+  | JBool => beq_bytes v true_b || beq_bytes v false_b
+  | JEmpty => isnil v
+  end.
+
+Fixpoint jdocb (sch : schema) (t : doctabs) (jk : list (sid * jkind)) (vb : bytes -> bool) (n : dnode) {struct n} : bool :=
+  match n with
+  | DN s v d m ch =>
+      negb (match kind_of sch s with KAny => true | _ => false end) &&
+      (if is_term sch s then jterm_okb vb (jkind_of jk s) v else isnil v) &&
+      forallb (meta_okb t vb) m && nodupb (map fst m) && forallb (jdocb sch t jk vb) ch
+  end.
+
+(* valid UTF-8 without NUL (the class of StdTextP.utf8_nonul) *)
+Definition nonulb (v : bytes) : bool :=
+  match std_decode_all (S (length v)) v [] with
+  | Some cps => forallb (fun c => negb (c =? 0)) cps && forallb Utf8.is_scalar cps && beq_bytes (flat_map utf8_encode cps) v
+  | None => false
+  end.
+(* what libyang's JSON lexer accepts *)
+Definition jlexb (v : bytes) : bool := lexableb v && bytes_ok v.
